@@ -62,8 +62,9 @@ Qed.
 (* a reachable state and a rejected single operation (closing a cycle); and the two formerly
    half-executed operations now succeed *)
 Example ex_rejected :
-  good s_do /\ cells_ok s_do /\ single (AddEdges 0 [(1, 0)]) /\
-  snd (step s_do (AddEdges 0 [(1, 0)])) = Err EValue /\
+  good s_do /\ cells_ok s_do /\ single (AddEdges 0 [(1, 0)] [7]) /\
+  snd (step s_do (AddEdges 0 [(1, 0)] [7])) = Err EValue /\
+  snd (step s_do (AddEdges 0 [(0, 1)] [7; 8])) = Err EValue /\ snd (step s_do (AddNodes 0 [5] [3] [])) = Err EIndex /\
   snd (step s_do (Do 0 [1] true)) = Ok /\ snd (step s_do (RemoveNodes 0 [0])) = Ok.
 Proof.
   assert (I : good s_do /\ cells_ok s_do).
@@ -72,7 +73,7 @@ Proof.
 Qed.
 (* a history with edges and a copy, for the acyclicity theorem *)
 Example ex_history :
-  map (fun m => edges (bg m)) (ms (run init [NewBN [(0, 1); (1, 2)] [0]; Copy 0; AddEdges 1 [(2, 0)]; AddEdges 1 [(0, 2)]]))
+  map (fun m => edges (bg m)) (ms (run init [NewBN [(0, 1); (1, 2)] [0]; Copy 0; AddEdges 1 [(2, 0)] [4]; AddEdges 1 [(0, 2); (2, 2)] [4; 5]]))
   = [[(0, 1); (1, 2)]; [(0, 1); (1, 2); (0, 2)]].
 Proof. vm_compute. reflexivity. Qed.
 Example ex_dbn :
@@ -80,10 +81,10 @@ Example ex_dbn :
   = [(0, 2); (1, 3); (2, 1)].
 Proof. vm_compute. reflexivity. Qed.
 Example ex_jt :
-  edges (jrun g_empty [JAddEdges [((0, [0; 1]), (1, [1; 2])); ((1, [1; 2]), (0, [0; 1])); ((2, [2]), (2, [2]))]]) = [(0, 1)].
+  edges (jrun g_empty [JAddEdges [((0, [0; 1]), (1, [1; 2])); ((1, [1; 2]), (0, [0; 1])); ((2, [2]), (2, [2]))] [1; 2; 3]]) = [(0, 1)].
 Proof. vm_compute. reflexivity. Qed.
 (* two live models after a copy: the frame theorem's hypotheses are met with b = 0 and an op on 1 *)
 Example ex_frame :
-  sep (run init [NewBN [(0, 1)] [0]; Copy 0]) /\ target (AddNodes 1 [(5, true)]) <> Some 0 /\
+  sep (run init [NewBN [(0, 1)] [0]; Copy 0]) /\ target (AddNodes 1 [5] [2] [true]) <> Some 0 /\
   length (ms (run init [NewBN [(0, 1)] [0]; Copy 0])) = 2.
 Proof. split; [apply run_sep, sep_init|]. split; [discriminate|vm_compute; reflexivity]. Qed.
